@@ -359,3 +359,19 @@ pub fn layout_mismatch() -> bool {
     }
     false
 }
+
+
+// ---------------------------------------------------------------- weak compare-exchange
+/// Replaces `core::sync::atomic::atomic_compare_exchange_weak`: like the real operation it may fail
+/// spuriously (nondeterministically) even when the value matches; Kani's built-in model never does.
+#[cfg(kani)]
+pub unsafe fn cas_weak_stub<T: Copy + PartialEq>(dst: *mut T, old: T, new: T, _s: Ordering, _f: Ordering) -> Result<T, T> {
+    let cur = *dst;
+    let spurious: bool = kani::any();
+    if cur == old && !spurious {
+        *dst = new;
+        Ok(cur)
+    } else {
+        Err(cur)
+    }
+}
